@@ -497,10 +497,24 @@ Definition text_toks (x : textcard) : list token :=
 Inductive mparam :=
 | MPNum (key : string) (sep : sepshape) (v : nlist)
 | MPLib (key : string) (sep : sepshape) (lib : string) (p : option pad).
+(* a library identifier (digits and the letter of the data class) is a NUMBER_WORD — except the multigroup class
+   "m": 50m is spelled like a multiply shortcut and the lexer makes it NUM_MULTIPLY (which text_phrase also takes) *)
+Fixpoint last_char (s : string) : option ascii :=
+  match s with
+  | EmptyString => None
+  | String a EmptyString => Some a
+  | String _ r => last_char r
+  end.
+Definition last_is (s : string) (c : ascii) : bool :=
+  match last_char s with Some a => Ascii.eqb a c | None => false end.
+Definition lib_class (lib : string) : string := if last_is lib "m"%char then "NUM_MULTIPLY" else "NUMBER_WORD".
+(* identifiers that would be spelled like a repeat / interpolate / jump shortcut are not library identifiers *)
+Definition lib_ok (lib : string) : bool :=
+  negb (last_is lib "r"%char || last_is lib "i"%char || last_is lib "j"%char).
 Definition mparam_toks (m : mparam) : list token :=
   match m with
   | MPNum k s v => ("KEYWORD", k) :: sep_toks s ++ nlist_toks v
-  | MPLib k s lib p => ("KEYWORD", k) :: sep_toks s ++ ("NUMBER_WORD", lib) :: opad_toks p
+  | MPLib k s lib p => ("KEYWORD", k) :: sep_toks s ++ (lib_class lib, lib) :: opad_toks p
   end.
 Definition core_mat_keys : list string :=
   ["gas"; "estep"; "hstep"; "nlib"; "plib"; "pnlib"; "elib"; "hlib"; "alib"; "slib"; "tlib"; "dlib";
@@ -508,7 +522,7 @@ Definition core_mat_keys : list string :=
 Definition mparam_key (m : mparam) : string := match m with MPNum k _ _ | MPLib k _ _ _ => k end.
 Definition mparam_ok (m : mparam) : bool :=
   mem_str (mparam_key m) core_mat_keys
-  && match m with MPNum _ _ v => nlist_ok v | MPLib _ _ _ _ => true end.
+  && match m with MPNum _ _ v => nlist_ok v | MPLib _ _ lib _ => lib_ok lib end.
 
 (* [z_lib = true]: "1001.80c" (one ZAID token); [false]: "1001" (a NUMBER token) *)
 Record zfrac := mkZ { z_lib : bool; z_zaid : string; z_pad : option pad; z_frac : real; z_trail : option pad }.
